@@ -139,6 +139,7 @@ ROWS = [
     ('d, a if b else c', 'expr', _HE), ('[d, lambda: x]', 'expr', _HE), ('(d, e := f)', 'expr', _HE), ('[a if b else c]', 'expr', _HE), ('f(a if b else c, *d)', 'expr', _HE),
     ('(f)(a)', 'expr', _HE), ('{...: a}', 'expr', _HE), ('(a | b) | c', 'expr', _HE), ('a | (b | c)', 'expr', _HE), ('f(x for x in y)', 'expr', _HE), ('(a.b)(c, d=e)', 'expr', _HE),
     ('**P, T', '_type_params', None), ('T, **P', '_type_params', None),
+    ('(\na\n)\n, b', 'expr', None), ('(\n a\n), (b\n)', 'expr', None), ('(\na\n)\n, b', 'pattern', None),
     ('*a', 'expr_arglike', None), ('a:b', 'expr_slice', None), ('*a', 'expr_all', None), ('*a,', 'expr_all', None), ('*a\n ,', 'expr_all', None), ('*ab  # c\n  ,', 'expr_all', None), ('a:b, *c', 'expr_all', None),
     ('*not a', 'expr_all', None), ('a:b:c', 'expr_all', None), ('*a\n ,', 'all', None), ('a = 1', 'all', None), ('a, b', 'all', None), ('a = b', 'stmt', None), ('a', 'stmt', None), ('a, b', 'stmt', None), ('a\nb', 'exec', None), ('a', 'exec', None),
     ('a = b =', '_Assign_targets', None), ('a, b = c.d =', '_Assign_targets', None), ('@a\n@b.c', '_decorator_list', None), ('@a(b)', '_decorator_list', None),
